@@ -223,6 +223,50 @@ pub struct TreeProfile {
     pub unsupported: bool,   // may contain constructs the target cannot express
     pub exotic: bool,        // Precedence / Global / Positional / DefaultPrint nodes
     pub hostile_strings: bool,
+    pub no_direct: bool,     // no -print-file-fid (prints directly, see known finding D13)
+    pub kind: String,        // "", "c09", "actions"
+}
+
+fn leaf_c09(rng: &mut Rng) -> Expression {
+    use Expression as E;
+    match rng.below(6) {
+        0 => E::Test(Test::True),
+        1 => E::Test(Test::False),
+        2 => E::Test(Test::Name("foo.txt".into())),
+        3 => E::Action(Action::Print),
+        4 => E::Action(Action::Quit),
+        _ => E::Action(Action::FilePrint("out.txt".into())),
+    }
+}
+
+fn nl_fmt(rng: &mut Rng, nl: bool) -> Vec<FormatElement> {
+    let mut v = vec![FormatElement::Field(FormatField::NameWithoutStartingPoint)];
+    if rng.chance(1, 2) { v.push(FormatElement::Literal(" ".into())); v.push(FormatElement::Field(FormatField::DiskSizeBytes)); }
+    if nl { v.push(FormatElement::Special(FormatSpecial::Newline)); }
+    v
+}
+
+fn leaf_actions(rng: &mut Rng, no_direct: bool) -> Expression {
+    use Expression as E;
+    let file = || -> String { ["A", "B", "C"][0].to_string() };
+    let _ = file;
+    let f = ["A", "B", "C", "out.txt"][rng.below(4)].to_string();
+    match rng.below(14) {
+        0 => E::Action(Action::Print),
+        1 => E::Action(Action::PrintNull),
+        2 => E::Action(Action::PrintFormatted(nl_fmt(rng, true))),
+        3 => E::Action(Action::PrintFormatted(nl_fmt(rng, false))),
+        4 => E::Action(Action::FilePrint(f)),
+        5 => E::Action(Action::FilePrintNull(f)),
+        6 => E::Action(Action::FilePrintFormatted(f, nl_fmt(rng, true))),
+        7 => E::Action(Action::FilePrintFormatted(f, nl_fmt(rng, false))),
+        8 => if no_direct { E::Action(Action::Print) } else { E::Action(Action::PrintFid) },
+        9 => E::Action(Action::Quit),
+        10 => E::Test(Test::True),
+        11 => E::Test(Test::False),
+        12 => E::Test(Test::Name("foo.txt".into())),
+        _ => E::Test(Test::UserId(Comparison::GreaterThan(500))),
+    }
 }
 
 pub fn rand_string(rng: &mut Rng, hostile: bool) -> String {
@@ -304,6 +348,19 @@ pub fn rand_elements(rng: &mut Rng, p: &TreeProfile) -> Vec<FormatElement> {
 pub fn rand_leaf(rng: &mut Rng, p: &TreeProfile) -> Expression {
     use Expression as E;
     let hs = p.hostile_strings;
+    if p.kind == "c09" { return leaf_c09(rng); }
+    if p.kind == "actions" { return leaf_actions(rng, p.no_direct); }
+    if p.kind == "numeric" {
+        return match rng.below(8) {
+            0 => E::Test(Test::UserId({ let v = rand_u32(rng); rand_cmp_val(rng, v) })),
+            1 => E::Test(Test::GroupId({ let v = rand_u32(rng); rand_cmp_val(rng, v) })),
+            2 => E::Test(Test::InodeNumber({ let v = rand_u32(rng); rand_cmp_val(rng, v) })),
+            3 => E::Test(Test::Links({ let v = rand_u64(rng); rand_cmp_val(rng, v) })),
+            4 => E::Test(Test::StripeCount({ let v = rand_u32(rng); rand_cmp_val(rng, v) })),
+            5 | 6 => E::Test(Test::Size({ let v = rand_size(rng); rand_cmp_val(rng, v) })),
+            _ => E::Test(Test::AccessTime({ let v = rand_time(rng); rand_cmp_val(rng, v) })),
+        };
+    }
     if p.exotic && rng.chance(1, 12) {
         return match rng.below(4) {
             0 => E::Global(GlobalOption::Depth),
@@ -371,7 +428,7 @@ pub fn rand_leaf(rng: &mut Rng, p: &TreeProfile) -> Expression {
         28 => E::Action(Action::FilePrint(rand_string(rng, hs))),
         29 => E::Action(Action::FilePrintNull(rand_string(rng, hs))),
         30 => E::Action(Action::FilePrintFormatted(rand_string(rng, hs), rand_elements(rng, p))),
-        31 => E::Action(Action::PrintFid),
+        31 => if p.no_direct { E::Action(Action::Print) } else { E::Action(Action::PrintFid) },
         32 => E::Action(Action::Quit),
         _ => E::Test(Test::Name(rand_string(rng, hs))),
     }
@@ -388,4 +445,38 @@ pub fn rand_tree(rng: &mut Rng, size: usize, p: &TreeProfile) -> Expression {
         7 => { let l = 1 + rng.below(size - 1); op(Operator::List(rand_tree(rng, l, p), rand_tree(rng, size - 1 - l.min(size - 2), p))) }
         _ => op(Operator::Precedence(rand_tree(rng, size - 1, p))),
     }
+}
+
+/// AND chain with n resources in a seeded first-occurrence order, with deliberate repeats,
+/// case-only differences and pattern/literal pairs (C10, C11)
+pub fn rand_chain(rng: &mut Rng, n: usize) -> Expression {
+    use Expression as E;
+    let mut items: Vec<Expression> = vec![];
+    for i in 0..n {
+        let r = rng.below(12);
+        let idx = if rng.chance(1, 5) && i > 0 { rng.below(i) } else { i };   // repeat an earlier resource sometimes
+        let e = match r {
+            0 | 1 => E::Action(Action::FilePrint(format!("f{}", idx))),
+            2 => E::Action(Action::FilePrintNull(format!("f{}", idx))),
+            3 => E::Action(Action::FilePrintFormatted(format!("f{}", idx), nl_fmt(rng, true))),
+            4 => E::Action(Action::FilePrintFormatted(format!("f{}", idx), nl_fmt(rng, false))),
+            5 => E::Test(Test::Name(format!("n{}*", idx))),
+            6 => E::Test(Test::Name(format!("n{}", idx))),
+            7 => E::Test(Test::InsensitiveName(format!("n{}*", idx))),
+            8 => E::Test(Test::InsensitiveName(format!("N{}", idx))),
+            9 => E::Test(Test::Path(format!("*/n{}", idx))),
+            10 => E::Action(Action::PrintNull),
+            _ => E::Action(Action::Print),
+        };
+        // tests are wrapped so that the chain goes on whatever their truth: ( test -o -true )
+        let e = match e { E::Test(_) => op(Operator::Or(e, E::Test(Test::True))), other => other };
+        items.push(e);
+    }
+    if !items.iter().any(|e| matches!(e, E::Action(Action::FilePrint(_)) | E::Action(Action::FilePrintNull(_)) | E::Action(Action::FilePrintFormatted(_, _)) | E::Action(Action::PrintNull))) {
+        items.push(E::Action(Action::PrintNull));
+    }
+    let mut it = items.into_iter();
+    let mut acc = it.next().unwrap();
+    for e in it { acc = op(Operator::And(acc, e)); }
+    acc
 }
